@@ -115,7 +115,7 @@ theorem fibRemove_char (st : St) (f : Nat) (name : Name) (p : Params) :
       | some n => simp [Agrees, effect, pickFace_eq, tablesOf, hn]
   · simp [hp, r400]
 
-theorem strategyPrefix_eq : strategyPrefix = [gc "localhost", gc "nfd", gc "strategy"] := rfl
+theorem strategyPrefix_eq : strategyPrefix = [cLocalhost, gc "nfd", gc "strategy"] := rfl
 
 theorem not_and3 {p q r : Prop} (h : ¬(p ∧ q ∧ r)) : ¬p ∨ ¬q ∨ ¬r := by
   by_cases h1 : p <;> by_cases h2 : q <;> by_cases h3 : r <;> simp_all
@@ -130,7 +130,7 @@ theorem checkStrategy_eq (s : Name) :
   | [a, b, c] => simp [Name.isPrefixOf, strategyPrefix_eq]
   | [a, b, c, sn] =>
     simp only [Name.isPrefixOf, strategyPrefix_eq]
-    by_cases h : a = gc "localhost" ∧ b = gc "nfd" ∧ c = gc "strategy"
+    by_cases h : a = cLocalhost ∧ b = gc "nfd" ∧ c = gc "strategy"
     · simp [h]
       cases strategyVersions sn with
       | none => simp
@@ -139,7 +139,7 @@ theorem checkStrategy_eq (s : Name) :
       simp [h, h']
   | [a, b, c, sn, vc] =>
     simp only [Name.isPrefixOf, strategyPrefix_eq]
-    by_cases h : a = gc "localhost" ∧ b = gc "nfd" ∧ c = gc "strategy"
+    by_cases h : a = cLocalhost ∧ b = gc "nfd" ∧ c = gc "strategy"
     · simp [h]
       cases strategyVersions sn with
       | none => simp
@@ -160,7 +160,7 @@ theorem checkStrategy_eq (s : Name) :
       simp [h, h']
   | a :: b :: c :: sn :: vc :: x :: rest =>
     simp only [Name.isPrefixOf, strategyPrefix_eq]
-    by_cases h : a = gc "localhost" ∧ b = gc "nfd" ∧ c = gc "strategy"
+    by_cases h : a = cLocalhost ∧ b = gc "nfd" ∧ c = gc "strategy"
     · simp [h]
       cases strategyVersions sn with
       | none => simp
@@ -317,6 +317,589 @@ theorem faceUpdate_char (st : St) (f : Nat) (name : Name) (p : Params) (hwf : Fa
             cases h1 : fc.rscheme == "null" <;> cases h2 : fc.rscheme == "internal" <;> simp_all
           simp [hs, hs']
   · simp [hp, r400]
+
+
+/-! ### module and dispatch level -/
+
+/-- the dataset lists the tables of `st` -/
+def DatasetOf (st : St) (d : Dataset) : Prop :=
+  d = .rib st.rib ∨ d = .fib st.fib ∨ d = .sc st.sc ∨ d = .cs (toU64 st.cs) 3 0 ∨ d = .status st.fib.length ∨
+  d = .faces st.faces
+
+/-- outcomes that change no table: nothing, a non-200 answer, or a dataset of the current tables -/
+def Benign (st : St) (res : St × Resp) : Prop :=
+  tbl res.1 = tbl st ∧ res.1.lh = st.lh ∧
+  (res.2 = .none ∨ (∃ c e, res.2 = .ctrl c e ∧ c ≠ 200) ∨ (∃ pfx mv v d, res.2 = .dataset pfx mv v d ∧ DatasetOf st d))
+
+theorem benign_none (st : St) : Benign st (st, .none) := by simp [Benign]
+theorem benign_ctrl (st : St) (c : Nat) (e : Args) (h : c ≠ 200) : Benign st (st, .ctrl c e) := by simp [Benign, h]
+theorem benign_dataset (st st' : St) (h : tbl st' = tbl st) (hl : st'.lh = st.lh) (pfx : Name) (mv : String) (v : Nat)
+    (d : Dataset) (hd : DatasetOf st d) : Benign st (st', .dataset pfx mv v d) :=
+  ⟨h, hl, Or.inr (Or.inr ⟨pfx, mv, v, d, rfl, hd⟩)⟩
+
+theorem ribModule_char (st : St) (ext : Ext) (f : Nat) (name : Name) (p : Params) (v : Component)
+    (hv : name[3]? = some v) :
+    match wordOf v with
+    | .register => Char st f .ribRegister name p (ribModule st ext f name p)
+    | .unregister => Char st f .ribUnregister name p (ribModule st ext f name p)
+    | _ => Benign st (ribModule st ext f name p) := by
+  unfold ribModule
+  simp only [hv]
+  cases hw : wordOf v <;> simp only []
+  · exact ribRegister_char ..
+  · exact ribUnregister_char ..
+  · exact benign_ctrl _ _ _ (by decide)
+  · unfold ribList; split
+    · exact benign_none _
+    · exact benign_dataset _ _ rfl rfl _ _ _ _ (Or.inl rfl)
+  all_goals exact benign_ctrl _ _ _ (by decide)
+
+theorem fibModule_char (st : St) (f : Nat) (name : Name) (p : Params) (v : Component)
+    (hv : name[3]? = some v) (hg : lhPrefix.isPrefixOf name = true) :
+    match wordOf v with
+    | .addNexthop => Char st f .fibAdd name p (fibModule st f name p)
+    | .removeNexthop => Char st f .fibRemove name p (fibModule st f name p)
+    | _ => Benign st (fibModule st f name p) := by
+  unfold fibModule
+  simp only [hv, hg]
+  cases hw : wordOf v <;> simp only [Bool.not_true, Bool.false_eq_true, ↓reduceIte]
+  case addNexthop => exact fibAdd_char ..
+  case removeNexthop => exact fibRemove_char ..
+  case list =>
+    unfold fibList; split
+    · exact benign_none _
+    · exact benign_dataset _ _ rfl rfl _ _ _ _ (Or.inr (Or.inl rfl))
+  all_goals exact benign_ctrl _ _ _ (by decide)
+
+theorem scModule_char (st : St) (f : Nat) (name : Name) (p : Params) (v : Component)
+    (hv : name[3]? = some v) (hg : lhPrefix.isPrefixOf name = true) :
+    match wordOf v with
+    | .set => Char st f .scSet name p (scModule st name p)
+    | .unset => Char st f .scUnset name p (scModule st name p)
+    | _ => Benign st (scModule st name p) := by
+  unfold scModule
+  simp only [hv, hg]
+  cases hw : wordOf v <;> simp only [Bool.not_true, Bool.false_eq_true, ↓reduceIte]
+  case set => exact scSet_char ..
+  case unset => exact scUnset_char ..
+  case list =>
+    unfold scList; split
+    · exact benign_none _
+    · exact benign_dataset _ _ rfl rfl _ _ _ _ (Or.inr (Or.inr (Or.inl rfl)))
+  all_goals exact benign_ctrl _ _ _ (by decide)
+
+theorem csModule_char (st : St) (f : Nat) (name : Name) (p : Params) (v : Component)
+    (hv : name[3]? = some v) (hg : lhPrefix.isPrefixOf name = true) :
+    match wordOf v with
+    | .config => Char st f .csConfig name p (csModule st name p)
+    | _ => Benign st (csModule st name p) := by
+  unfold csModule
+  simp only [hv, hg]
+  cases hw : wordOf v <;> simp only [Bool.not_true, Bool.false_eq_true, ↓reduceIte]
+  case config => exact csConfig_char ..
+  case info =>
+    unfold csInfo; split
+    · exact benign_none _
+    · exact benign_dataset _ _ rfl rfl _ _ _ _ (Or.inr (Or.inr (Or.inr (Or.inl rfl))))
+  case erase => exact benign_none _
+  case query => exact benign_none _
+  all_goals exact benign_ctrl _ _ _ (by decide)
+
+theorem statusModule_benign (st : St) (name : Name) (v : Component) (hv : name[3]? = some v) :
+    Benign st (statusModule st name) := by
+  unfold statusModule
+  split
+  · exact benign_none _
+  simp only [hv]
+  cases hw : wordOf v <;> simp only []
+  case general =>
+    split
+    · exact benign_none _
+    · exact benign_dataset _ _ rfl rfl _ _ _ _ (Or.inr (Or.inr (Or.inr (Or.inr (Or.inl rfl)))))
+  all_goals exact benign_ctrl _ _ _ (by decide)
+
+theorem facesModule_char (st : St) (ext : Ext) (f : Nat) (name : Name) (p : Params) (v : Component)
+    (hv : name[3]? = some v) (hg : lhPrefix.isPrefixOf name = true) (hwf : FacesWF st.faces) :
+    match wordOf v with
+    | .update => Char st f .faceUpdate name p (facesModule st ext f name p)
+    | .destroy => Char st f .faceDestroy name p (facesModule st ext f name p)
+    | _ => Benign st (facesModule st ext f name p) := by
+  unfold facesModule
+  simp only [hv, hg]
+  cases hw : wordOf v <;> simp only [Bool.not_true, Bool.false_eq_true, ↓reduceIte]
+  case update => exact faceUpdate_char _ _ _ _ hwf
+  case destroy => exact faceDestroy_char ..
+  case list =>
+    unfold faceList; split
+    · exact benign_none _
+    · exact benign_dataset _ _ rfl rfl _ _ _ _ (Or.inr (Or.inr (Or.inr (Or.inr (Or.inr rfl)))))
+  case create => exact benign_none _
+  case query => exact benign_none _
+  all_goals exact benign_ctrl _ _ _ (by decide)
+
+
+/-- the name-part of being authorised: what `Thread.Run` and the module guards let through -/
+def mgmtAccepts (lh : Bool) (name : Name) : Bool :=
+  lhPrefix.isPrefixOf name || (lh && lpPrefix.isPrefixOf name && (name[2]?.map modOf) == some Mod.rib)
+
+theorem verbOf_none_of_short (name : Name) (h : name.length < 4) : verbOf name = none := by
+  have h3 : name[3]? = none := by simp; omega
+  unfold verbOf; simp [h3]
+
+theorem run_char (st : St) (ext : Ext) (f : Nat) (name : Name) (p : Params) (hwf : FacesWF st.faces) :
+    match verbOf name with
+    | some v => if mgmtAccepts st.lh name then Char st f v name p (run st ext f name p)
+                else run st ext f name p = (st, .none)
+    | none => Benign st (run st ext f name p) := by
+  by_cases hlen : name.length < 4
+  · rw [verbOf_none_of_short name hlen]
+    simp [run, hlen, benign_none]
+  · obtain ⟨m, hm⟩ : ∃ m, name[2]? = some m := ⟨name[2]'(by omega), by simp⟩
+    obtain ⟨v, hv⟩ : ∃ v, name[3]? = some v := ⟨name[3]'(by omega), by simp⟩
+    unfold run mgmtAccepts
+    simp only [hlen, hm, ↓reduceIte, Option.map_some]
+    by_cases hl : lhPrefix.isPrefixOf name = true
+    · simp only [hl, Bool.not_true, Bool.false_and, Bool.false_eq_true, ↓reduceIte, Bool.true_or]
+      cases hmod : modOf m <;> simp only []
+      · have := csModule_char st f name p v hv hl
+        cases hw : wordOf v <;> simp_all [verbOf]
+      · have := facesModule_char st ext f name p v hv hl hwf
+        cases hw : wordOf v <;> simp_all [verbOf]
+      · have := fibModule_char st f name p v hv hl
+        cases hw : wordOf v <;> simp_all [verbOf]
+      · have := ribModule_char st ext f name p v hv
+        cases hw : wordOf v <;> simp_all [verbOf]
+      · have := statusModule_benign st name v hv
+        cases hw : wordOf v <;> simp_all [verbOf]
+      · have := scModule_char st f name p v hv hl
+        cases hw : wordOf v <;> simp_all [verbOf]
+      · cases hw : wordOf v <;> simp_all [verbOf, benign_ctrl]
+    · have hl' : lhPrefix.isPrefixOf name = false := by simpa using hl
+      by_cases hlp : (st.lh && lpPrefix.isPrefixOf name) = true
+      · simp only [hl', hlp, Bool.not_false, Bool.not_true, Bool.and_false, Bool.false_eq_true, ↓reduceIte,
+          Bool.false_or, Bool.true_and]
+        cases hmod : modOf m <;> simp only []
+        · have : csModule st name p = (st, .none) := by unfold csModule; rw [hl']; rfl
+          cases hw : wordOf v <;> simp_all [verbOf, benign_none]
+        · have : facesModule st ext f name p = (st, .none) := by unfold facesModule; rw [hl']; rfl
+          cases hw : wordOf v <;> simp_all [verbOf, benign_none]
+        · have : fibModule st f name p = (st, .none) := by unfold fibModule; rw [hl']; rfl
+          cases hw : wordOf v <;> simp_all [verbOf, benign_none]
+        · have := ribModule_char st ext f name p v hv
+          cases hw : wordOf v <;> simp_all [verbOf]
+        · have : statusModule st name = (st, .none) := by unfold statusModule; rw [hl']; rfl
+          cases hw : wordOf v <;> simp_all [verbOf, benign_none]
+        · have : scModule st name p = (st, .none) := by unfold scModule; rw [hl']; rfl
+          cases hw : wordOf v <;> simp_all [verbOf, benign_none]
+        · cases hw : wordOf v <;> simp_all [verbOf, benign_ctrl]
+      · have hlp' : (st.lh && lpPrefix.isPrefixOf name) = false := by simpa using hlp
+        simp only [hl', hlp', Bool.not_false, Bool.and_self, ↓reduceIte, Bool.false_and, Bool.false_or]
+        cases hvo : verbOf name <;> simp [benign_none]
+
+
+/-! ### specification-level facts -/
+
+theorem same_refl (t : Tables) : t.same t = true := by
+  simp [Tables.same, sameRib, sameFib, sameSc, sameFaces]
+
+theorem same_of_tbl {a b : St} (h : tbl a = tbl b) : (tablesOf a).same (tablesOf b) = true := by
+  rw [tablesOf_eq_of_tbl h]; exact same_refl _
+
+theorem agrees_matches {st' st : St} {e : Effect} (h : Agrees st' st e) : e.matches (tablesOf st') = true := by
+  obtain ⟨_, _, _, _, _, _, _, hsc, hcs, hfa, hfib, hrib⟩ := h
+  unfold Effect.matches tablesOf
+  simp only [hsc, hcs, hfa, sameSc, sameFaces, beq_self_eq_true, Bool.and_true]
+  cases hr : e.ribFree <;> cases hf : e.fibFree <;> simp_all [sameRib, sameFib]
+
+/-- the part of `usable` that does not depend on who is asked -/
+theorem usable_iff (t : Tables) : usable t = true ↔
+    (∀ e ∈ t.sc, instantiated e.2 = true) ∧ (∀ f ∈ t.faces, specMaxOverhead < f.mtu) ∧ 0 ≤ t.cs := by
+  simp [usable, List.all_eq_true, and_assoc]
+
+theorem encNat_one : encNat 1 = [1] := by decide
+
+theorem knownStrategy_instantiated {s c : Name} (h : knownStrategy s = some c) : instantiated c = true := by
+  have key : ∀ sn : Component, ∀ l, strategyVersions sn = some l → (l = [1] ∧ (sn = gc "best-route" ∨ sn = gc "multicast")) := by
+    intro sn l hl
+    unfold strategyVersions at hl
+    split at hl
+    · rename_i h1; simp at hl; exact ⟨hl.symm, Or.inl ((compIs_iff _ _).1 h1)⟩
+    · split at hl
+      · rename_i h1 h2; simp at hl; exact ⟨hl.symm, Or.inr ((compIs_iff _ _).1 h2)⟩
+      · simp at hl
+  match s, h with
+  | [], h | [_], h | [_, _], h | [_, _, _], h | _ :: _ :: _ :: _ :: _ :: _ :: _, h => simp [knownStrategy] at h
+  | [a, b, c, sn], h =>
+    simp only [knownStrategy] at h
+    by_cases hp : ([a, b, c] == strategyPrefix) = true
+    · simp only [hp, if_true] at h
+      cases hsv : strategyVersions sn with
+      | none => simp [hsv] at h
+      | some l =>
+        obtain ⟨rfl, hsn⟩ := key sn l hsv
+        simp [hsv] at h; subst h
+        rcases hsn with rfl | rfl <;>
+          simp [instantiated, bestRouteV1, multicastV1, newestVersion, encNat_one, versionType]
+    · simp [hp] at h
+  | [a, b, c, sn, vc], h =>
+    simp only [knownStrategy] at h
+    by_cases hp : ([a, b, c] == strategyPrefix && vc.typ == versionType) = true
+    · simp only [hp, if_true] at h
+      cases hsv : strategyVersions sn with
+      | none => simp [hsv] at h
+      | some l =>
+        obtain ⟨rfl, hsn⟩ := key sn l hsv
+        cases hdv : decNat vc.val with
+        | none => simp [hsv, hdv] at h
+        | some v =>
+          simp [hsv, hdv] at h
+          obtain ⟨rfl, h⟩ := h; subst h
+          rcases hsn with rfl | rfl <;>
+            simp [instantiated, bestRouteV1, multicastV1, encNat_one, versionType]
+    · simp [hp] at h
+
+theorem mem_scSet {sc : Sc} {n s : Name} {e : Name × Name} (h : e ∈ scSet sc n s) : e ∈ sc ∨ e = (n, s) := by
+  induction sc with
+  | nil => simp [scSet] at h; exact Or.inr h
+  | cons x t ih =>
+    obtain ⟨m, y⟩ := x
+    simp only [scSet] at h
+    split at h
+    · simp at h; rcases h with h | h
+      · rename_i hm; simp at hm; subst hm; exact Or.inr h
+      · exact Or.inl (List.mem_cons_of_mem _ h)
+    · simp at h; rcases h with h | h
+      · exact Or.inl (by simp [h])
+      · rcases ih h with h | h
+        · exact Or.inl (List.mem_cons_of_mem _ h)
+        · exact Or.inr h
+
+theorem mem_faceSet {fs : List Face} {f g : Face} (h : g ∈ faceSet fs f) : g ∈ fs ∨ g = f := by
+  unfold faceSet at h
+  simp at h
+  obtain ⟨x, hx, hg⟩ := h
+  split at hg
+  · exact Or.inr hg.symm
+  · exact Or.inl (hg ▸ hx)
+
+theorem mem_faceRemove {fs : List Face} {id : Nat} {g : Face} (h : g ∈ faceRemove fs id) : g ∈ fs := by
+  unfold faceRemove at h; exact (List.mem_filter.1 h).1
+
+theorem mem_scUnset {sc : Sc} {n : Name} {e : Name × Name} (h : e ∈ scUnset sc n) : e ∈ sc := by
+  unfold scUnset at h; exact (List.mem_filter.1 h).1
+
+theorem applyFlags_mtu (f : Face) (fl mk : Nat) : (applyFlags f fl mk).mtu = f.mtu := (applyFlags_keep f fl mk).2.2
+
+theorem specFaceAfter_mtu (f : Face) (a : Args) :
+    (specFaceAfter f a).mtu = match a.mtu with | some m => (if m > 8800 then 8800 else m) | none => f.mtu := by
+  unfold specFaceAfter
+  cases a.pers <;> cases a.bcmi <;> cases a.dct <;> cases a.mtu <;> cases a.flags <;> cases a.mask <;>
+    simp [applyFlags_mtu]
+
+/-- the specification's own effects keep the tables usable -/
+theorem effect_usable (t : Tables) (f : Nat) (v : Verb) (hasP : Bool) (a : Args)
+    (hv : validity t f v hasP (.args a) = .valid) (hu : usable t = true) :
+    usable (effect t f v a).t = true := by
+  rw [usable_iff] at hu ⊢
+  obtain ⟨hsc, hfa, hcs⟩ := hu
+  cases v <;> simp only [effect]
+  case ribRegister => exact ⟨hsc, hfa, hcs⟩
+  case ribUnregister => exact ⟨hsc, hfa, hcs⟩
+  case fibAdd => exact ⟨hsc, hfa, hcs⟩
+  case fibRemove => exact ⟨hsc, hfa, hcs⟩
+  case scSet =>
+    refine ⟨?_, hfa, hcs⟩
+    intro e he
+    rcases mem_scSet he with h | h
+    · exact hsc e h
+    · subst h
+      simp only [validity] at hv
+      cases hasP <;> simp at hv
+      cases hn : a.name <;> cases hs : a.strategy <;> simp [hn, hs] at hv
+      rename_i n s
+      cases hk : knownStrategy s with
+      | none => simp [hk] at hv
+      | some c => simp [hk]; exact knownStrategy_instantiated hk
+  case scUnset => exact ⟨fun e he => hsc e (mem_scUnset he), hfa, hcs⟩
+  case csConfig =>
+    cases hk : a.capacity with
+    | none => exact ⟨hsc, hfa, hcs⟩
+    | some k => exact ⟨hsc, hfa, by simp⟩
+  case faceUpdate =>
+    cases hg : faceGet t.faces (targetFace a f) with
+    | none => exact ⟨hsc, hfa, hcs⟩
+    | some fc =>
+      refine ⟨hsc, ?_, hcs⟩
+      intro g hgm
+      rcases mem_faceSet hgm with h | h
+      · exact hfa g h
+      · subst h
+        rw [specFaceAfter_mtu]
+        have hfc := hfa fc (faceGet_some hg).1
+        simp only [validity, hg] at hv
+        cases hasP <;> simp at hv
+        cases hm : a.mtu with
+        | none => simpa using hfc
+        | some m =>
+          have : mtuClass (some m) = .valid := by
+            simp only [hm] at hv
+            split at hv <;> (try split at hv) <;> (try split at hv) <;> simp_all
+          have hm64 : 64 ≤ m := by
+            unfold mtuClass specMaxOverhead specMinMtu at this
+            by_cases h1 : m ≤ 56
+            · simp [h1] at this
+            · by_cases h2 : m < 64
+              · simp [h1, h2] at this
+              · omega
+          simp only [specMaxOverhead]
+          split <;> omega
+  case faceDestroy => exact ⟨hsc, fun g hg => hfa g (mem_faceRemove hg), hcs⟩
+
+
+/-! ### authorisation vs. what the code lets through -/
+
+theorem lh_head {name : Name} (h : lhPrefix.isPrefixOf name = true) : ∃ rest, name = cLocalhost :: rest := by
+  unfold Name.isPrefixOf lhPrefix at h
+  match name, h with
+  | [], h => simp at h
+  | [_], h => simp at h
+  | a :: b :: rest, h => simp at h; exact ⟨b :: rest, by rw [h.1]⟩
+
+theorem lp_head {name : Name} (h : lpPrefix.isPrefixOf name = true) : ∃ rest, name = cLocalhop :: rest := by
+  unfold Name.isPrefixOf lpPrefix at h
+  match name, h with
+  | [], h => simp at h
+  | [_], h => simp at h
+  | a :: b :: rest, h => simp at h; exact ⟨b :: rest, by rw [h.1]⟩
+
+theorem localhop_ne : (cLocalhop.val == localhostVal) = false := by decide
+theorem localhost_eq : (cLocalhost.val == localhostVal) = true := by decide
+
+theorem fwGuard_of_auth {st : St} {face : Nat} {name : Name}
+    (h : authorised st.lh st.faces face name = true) : fwGuard st face name = true := by
+  unfold authorised at h
+  unfold fwGuard
+  simp only [Bool.or_eq_true, Bool.and_eq_true] at h
+  rcases h with ⟨h1, h2⟩ | ⟨⟨⟨_, h2⟩, _⟩, h4⟩
+  · unfold faceIsLocal at h2
+    cases hg : faceGet st.faces face with
+    | none => simp [hg] at h2
+    | some f =>
+      simp [hg] at h2
+      obtain ⟨rest, rfl⟩ := lh_head h1
+      simp [h2]
+  · cases hg : faceGet st.faces face with
+    | none => simp [hg] at h4
+    | some f =>
+      obtain ⟨rest, rfl⟩ := lp_head h2
+      simp [localhop_ne]
+
+theorem auth_of_accepts {st : St} {face : Nat} {name : Name}
+    (hg : fwGuard st face name = true) (ha : mgmtAccepts st.lh name = true) :
+    authorised st.lh st.faces face name = true := by
+  unfold mgmtAccepts at ha
+  unfold authorised
+  unfold fwGuard at hg
+  cases hf : faceGet st.faces face with
+  | none => simp [hf] at hg
+  | some f =>
+    simp only [hf] at hg
+    simp only [Bool.or_eq_true, Bool.and_eq_true] at ha ⊢
+    rcases ha with h1 | h2
+    · left
+      refine ⟨h1, ?_⟩
+      obtain ⟨rest, rfl⟩ := lh_head h1
+      simp [localhost_eq] at hg
+      simp [faceIsLocal, hf, hg]
+    · right
+      exact ⟨h2, by simp⟩
+
+theorem accepts_of_auth {lh : Bool} {faces : List Face} {face : Nat} {name : Name}
+    (h : authorised lh faces face name = true) : mgmtAccepts lh name = true := by
+  unfold authorised at h; unfold mgmtAccepts
+  simp only [Bool.or_eq_true, Bool.and_eq_true] at h ⊢
+  rcases h with ⟨h1, _⟩ | ⟨h, _⟩
+  · exact Or.inl h1
+  · exact Or.inr h
+
+
+/-! ### the forwarding thread + management thread together -/
+
+/-- what `sysStep` makes of the management thread's result: the answer reaches the requester only
+    if its face still exists -/
+def post (face : Nat) (r : St × Resp) : St × Resp :=
+  match r.2 with
+  | .panic m => (r.1, .panic m)
+  | x => if (faceGet r.1.faces face).isSome then (r.1, x) else (r.1, .none)
+
+theorem sysStep_char (st : St) (ext : Ext) (routed : Bool) (face : Nat) (name : Name) (p : Params)
+    (hwf : FacesWF st.faces) :
+    (sysStep st ext routed face name p = (st, .none) ∧ (authorised st.lh st.faces face name && routed) = false) ∨
+    (fwGuard st face name = true ∧ routed = true ∧ sysStep st ext routed face name p = post face (run st ext face name p) ∧
+      match verbOf name with
+      | none => Benign st (run st ext face name p)
+      | some v => if authorised st.lh st.faces face name then Char st face v name p (run st ext face name p)
+                  else run st ext face name p = (st, .none)) := by
+  by_cases hg : fwGuard st face name = true
+  · by_cases hr : routed = true
+    · right
+      refine ⟨hg, hr, ?_, ?_⟩
+      · unfold sysStep post
+        simp only [hg, hr, Bool.not_true, Bool.false_eq_true, ↓reduceIte]
+        cases h2 : (run st ext face name p).2 <;> simp
+      · have := run_char st ext face name p hwf
+        cases hv : verbOf name with
+        | none => simpa [hv] using this
+        | some v =>
+          simp only [hv] at this ⊢
+          by_cases ha : mgmtAccepts st.lh name = true
+          · simp only [ha, ↓reduceIte] at this
+            simp [auth_of_accepts hg ha, this]
+          · have hna : authorised st.lh st.faces face name = false := by
+              cases h : authorised st.lh st.faces face name
+              · rfl
+              · exact absurd (accepts_of_auth h) ha
+            simp only [ha, Bool.false_eq_true, ↓reduceIte] at this
+            simp [hna, this]
+    · left
+      have hr' : routed = false := by simpa using hr
+      simp [sysStep, hg, hr']
+  · left
+    have hna : authorised st.lh st.faces face name = false := by
+      cases h : authorised st.lh st.faces face name
+      · rfl
+      · exact absurd (fwGuard_of_auth h) hg
+    have hg' : fwGuard st face name = false := by simpa using hg
+    simp [sysStep, hg', hna]
+
+
+theorem char_cases {st : St} {f : Nat} {v : Verb} {name : Name} {p : Params} {res : St × Resp}
+    (h : Char st f v name p res) :
+    (validity (tablesOf st) f v (hasParams name) p = .valid ∧ ∃ a, p = .args a ∧
+        res.2 = .ctrl 200 (effect (tablesOf st) f v a).echo ∧ Agrees res.1 st (effect (tablesOf st) f v a)) ∨
+    (validity (tablesOf st) f v (hasParams name) p ≠ .valid ∧ res.1 = st ∧
+        ∃ c e, res.2 = .ctrl c e ∧ 400 ≤ c ∧ c < 500) := by
+  unfold Char at h
+  cases hv : validity (tablesOf st) f v (hasParams name) p <;> simp only [hv] at h
+  · exact Or.inl ⟨rfl, h⟩
+  · exact Or.inr ⟨by simp, h⟩
+  · exact Or.inr ⟨by simp, h⟩
+
+theorem post_fst (face : Nat) (r : St × Resp) : (post face r).1 = r.1 := by
+  unfold post; split
+  · rfl
+  · split <;> rfl
+
+theorem post_ctrl (face : Nat) (r : St × Resp) (c : Nat) (e : Args) (h : r.2 = .ctrl c e) :
+    (post face r).2 = if (faceGet r.1.faces face).isSome then .ctrl c e else .none := by
+  unfold post; rw [h]; simp only []; split <;> rfl
+
+theorem post_none (face : Nat) (r : St × Resp) (h : r.2 = .none) : (post face r).2 = .none := by
+  unfold post; rw [h]; simp only []; split <;> rfl
+
+theorem post_dataset (face : Nat) (r : St × Resp) (pf : Name) (mv : String) (v : Nat) (d : Dataset)
+    (h : r.2 = .dataset pf mv v d) :
+    (post face r).2 = if (faceGet r.1.faces face).isSome then .dataset pf mv v d else .none := by
+  unfold post; rw [h]; simp only []; split <;> rfl
+
+theorem fwGuard_face {st : St} {face : Nat} {name : Name} (h : fwGuard st face name = true) :
+    (faceGet st.faces face).isSome = true := by
+  unfold fwGuard at h
+  cases hf : faceGet st.faces face <;> simp_all
+
+/-- model-state invariant: updatable faces are NDNLPv2 faces, the CS capacity is a non-negative int -/
+def StWF (st : St) : Prop := FacesWF st.faces ∧ 0 ≤ st.cs ∧ st.cs ≤ (maxInt : Int)
+
+theorem toU64_of_nonneg {i : Int} (h0 : 0 ≤ i) (h1 : i ≤ (maxInt : Int)) : ((toU64 i : Nat) : Int) = i := by
+  unfold toU64 u64
+  unfold maxInt at h1
+  have : i % ((2 ^ 64 : Nat) : Int) = i := Int.emod_eq_of_lt h0 (by omega)
+  rw [this]
+  omega
+
+/-! ### every observation of a model step has one of five shapes -/
+
+/-- the five shapes an observation of a model step can have -/
+inductive Shape (st : St) (o : Obs) : Prop
+  | quiet (h1 : o.out = .none) (h2 : o.after = o.before)
+      (hnv : ∀ v, verbOf o.name = some v → o.auth = true → o.routed = true → False)
+  | refused (c : Nat) (e : Args) (h1 : o.out = .ctrl c e) (hc : c ≠ 200) (h2 : o.after = o.before)
+      (hnv : ∀ v, verbOf o.name = some v → o.auth = true → o.routed = true →
+        validity o.before o.face v o.hasP o.params ≠ .valid ∧ 400 ≤ c ∧ c < 500)
+  | listed (pf : Name) (mv : String) (ver : Nat) (d : Dataset) (h1 : o.out = .dataset pf mv ver d)
+      (h2 : o.after = o.before) (hd : DatasetOf st d)
+      (hnv : ∀ v, verbOf o.name = some v → o.auth = true → o.routed = true → False)
+  | accepted (v : Verb) (a : Args) (hv : verbOf o.name = some v) (hp : o.params = .args a)
+      (hval : validity o.before o.face v o.hasP o.params = .valid) (hauth : o.auth = true) (hr : o.routed = true)
+      (hm : (effect o.before o.face v a).matches o.after = true)
+      (hu : usable o.before = true → usable o.after = true)
+      (hout : o.out = .ctrl 200 (effect o.before o.face v a).echo ∨ (o.out = .none ∧ o.requesterGone = true))
+
+theorem usable_congr {t u : Tables} (h1 : t.sc = u.sc) (h2 : t.cs = u.cs) (h3 : t.faces = u.faces) :
+    usable t = usable u := by
+  simp [usable, h1, h2, h3]
+
+theorem obs_shape (st : St) (ext : Ext) (routed : Bool) (face : Nat) (name : Name) (p : Params)
+    (hwf : FacesWF st.faces) : Shape st (obsOf st ext routed face name p) := by
+  rcases sysStep_char st ext routed face name p hwf with ⟨h, hna⟩ | ⟨hg, hr, h, hv⟩
+  · apply Shape.quiet
+    · simp [obsOf, h, outcomeOf]
+    · simp [obsOf, h]
+    · intro v _ ha hr
+      simp only [obsOf, Obs.auth, tablesOf] at ha hr
+      simp [ha, hr] at hna
+  · have hreq0 := fwGuard_face hg
+    cases hvo : verbOf name with
+    | none =>
+      simp only [hvo] at hv
+      obtain ⟨htb, _, h3⟩ := hv
+      have haft : (obsOf st ext routed face name p).after = (obsOf st ext routed face name p).before := by
+        simp only [obsOf, h, post_fst]; exact tablesOf_eq_of_tbl htb
+      have hreq : (faceGet (run st ext face name p).1.faces face).isSome = true := by
+        have : (run st ext face name p).1.faces = st.faces := by simp [tbl] at htb; exact htb.2.2.2.2
+        rw [this]; exact hreq0
+      have hnv : ∀ v, verbOf (obsOf st ext routed face name p).name = some v → False := by
+        intro v hv'; simp [obsOf, hvo] at hv'
+      rcases h3 with h3 | ⟨c, e, h3, hc⟩ | ⟨pf, mv, v, d, h3, hd⟩
+      · exact Shape.quiet (by simp [obsOf, h, post_none _ _ h3, outcomeOf]) haft (fun v hv' _ _ => hnv v hv')
+      · exact Shape.refused c e (by simp [obsOf, h, post_ctrl _ _ _ _ h3, hreq, outcomeOf]) hc haft
+          (fun v hv' _ _ => (hnv v hv').elim)
+      · exact Shape.listed pf mv v d (by simp [obsOf, h, post_dataset _ _ _ _ _ _ h3, hreq, outcomeOf]) haft hd
+          (fun v hv' _ _ => hnv v hv')
+    | some v =>
+      simp only [hvo] at hv
+      by_cases ha : authorised st.lh st.faces face name = true
+      · simp only [ha, ↓reduceIte] at hv
+        rcases char_cases hv with ⟨hval, a, hp, h3, hag⟩ | ⟨hval, hst, c, e, h3, hc1, hc2⟩
+        · refine Shape.accepted v a (by simp [obsOf, hvo]) (by simp [obsOf, hp]) ?_ (by simp [obsOf, Obs.auth, tablesOf, ha])
+            (by simp [obsOf, hr]) ?_ ?_ ?_
+          · simpa [obsOf, Obs.hasP] using hval
+          · simp only [obsOf, h, post_fst]; exact agrees_matches hag
+          · intro hu
+            simp only [obsOf, h, post_fst] at hu ⊢
+            have := effect_usable (tablesOf st) face v (hasParams name) a (by rw [← hp]; exact hval) hu
+            rw [← this]
+            obtain ⟨_, _, _, _, _, _, _, hsc, hcs, hfa, _, _⟩ := hag
+            exact usable_congr hsc hcs hfa
+          · by_cases hreq : (faceGet (run st ext face name p).1.faces face).isSome = true
+            · left; simp [obsOf, h, post_ctrl _ _ _ _ h3, hreq, outcomeOf]
+            · right
+              simp [obsOf, h, post_ctrl _ _ _ _ h3, hreq, outcomeOf, Obs.requesterGone, post_fst, tablesOf]
+              cases hq : faceGet (run st ext face name p).1.faces face <;> simp_all
+        · have hreq : (faceGet (run st ext face name p).1.faces face).isSome = true := by rw [hst]; exact hreq0
+          refine Shape.refused c e (by simp [obsOf, h, post_ctrl _ _ _ _ h3, hreq, outcomeOf]) (by omega)
+            (by simp [obsOf, h, post_fst, hst]) ?_
+          intro v' hv' _ _
+          have : v' = v := by simp [obsOf, hvo] at hv'; exact hv'.symm
+          subst this
+          refine ⟨?_, hc1, hc2⟩
+          simpa [obsOf, Obs.hasP] using hval
+      · simp only [ha, Bool.false_eq_true, ↓reduceIte] at hv
+        have h3 : (run st ext face name p).2 = .none := by rw [hv]
+        refine Shape.quiet (by simp [obsOf, h, post_none _ _ h3, outcomeOf]) (by simp [obsOf, h, post_fst, hv]) ?_
+        intro v' _ ha' _
+        simp only [obsOf, Obs.auth, tablesOf] at ha'
+        exact ha ha'
 
 
 end Ndn.C17
